@@ -181,8 +181,18 @@ pub enum DOp {
     Pair,
     /// add_range over the two newest numbers, then add_slice(newest text, that range)
     Slice,
+    /// add_symbol_from(newest number): the symbol named by the number's text form
+    SymbolFromNumber,
+    /// add_char_list_from(newest number): the number's text form
+    TextFromNumber,
+    /// eight registers pushed and popped again, then a list of the oldest value and the newest pair made with
+    /// start_list / add_to_list / end_list and looked up by the pair's key and by a key it does not hold
+    RegistersThenList,
 }
-pub const DOPS: [DOp; 10] = [DOp::Symbol, DOp::Number, DOp::Text, DOp::MergeNewestNewest, DOp::MergeOldestNewest, DOp::MergeNewestOldest, DOp::MergeListList, DOp::Concatenation, DOp::Pair, DOp::Slice];
+pub const DOPS: [DOp; 13] = [
+    DOp::Symbol, DOp::Number, DOp::Text, DOp::MergeNewestNewest, DOp::MergeOldestNewest, DOp::MergeNewestOldest, DOp::MergeListList, DOp::Concatenation, DOp::Pair, DOp::Slice, DOp::SymbolFromNumber, DOp::TextFromNumber,
+    DOp::RegistersThenList,
+];
 
 fn derived_count(max: usize) -> u64 {
     (1..=max).map(|l| (DOPS.len() as u64).pow(l as u32)).sum()
@@ -265,6 +275,62 @@ fn run_derived<D: GD>(d: &mut D, ops: &[DOp], label: &str, ctx: &mut CaseCtx) ->
                     (Some((la, lv)), Some((ra, rv))) => Some((d.add_pair((la, ra)).map_err(e)?, pair(lv, rv))),
                     _ => None,
                 },
+                DOp::SymbolFromNumber => match newest(&values, &|v: &V| matches!(v, V::Int(_))) {
+                    Some((na, V::Int(i))) => {
+                        let a = d.add_symbol_from(na).map_err(e)?;
+                        // the name is the number's text form; which symbol value BasicGarnishData derives from a name is
+                        // not judged here, only that it is a symbol and stays that symbol
+                        let want = match readback(d, a) {
+                            V::Sym(s) if label != "Simple" || s == garnish_lang_simple_data::symbol_value(&i.to_string()) => V::Sym(s),
+                            other => return Err(format!("add_symbol_from(number {}) reads back as {}", i, other)),
+                        };
+                        Some((a, want))
+                    }
+                    _ => None,
+                },
+                DOp::TextFromNumber => match newest(&values, &|v: &V| matches!(v, V::Int(_))) {
+                    Some((na, V::Int(i))) => Some((d.add_char_list_from(na).map_err(e)?, text(&i.to_string()))),
+                    _ => None,
+                },
+                DOp::RegistersThenList => {
+                    if values.is_empty() {
+                        None
+                    } else {
+                        for i in 0..8 {
+                            d.push_register(values[i % values.len()].0).map_err(e)?;
+                        }
+                        for i in (0..8).rev() {
+                            match d.pop_register().map_err(e)? {
+                                Some(a) if a == values[i % values.len()].0 => {}
+                                other => return Err(format!("pop_register gave {:?}, expected {}", other, values[i % values.len()].0)),
+                            }
+                        }
+                        let mut items = vec![values[0].clone()];
+                        if let Some(p) = newest(&values, &|v: &V| matches!(v, V::Pair(l, _) if matches!(**l, V::Sym(_)))) {
+                            items.push(p);
+                        }
+                        let mut l = d.start_list(items.len()).map_err(e)?;
+                        for (a, _) in &items {
+                            l = d.add_to_list(l, *a).map_err(e)?;
+                        }
+                        let l = d.end_list(l).map_err(e)?;
+                        for (_, v) in &items {
+                            if let V::Pair(k, want) = v {
+                                if let V::Sym(s) = **k {
+                                    match d.get_list_item_with_symbol(l, s) {
+                                        Ok(Some(a)) if same(&readback(d, a), want) => {}
+                                        other => return Err(format!("the new list's key {} looks up as {:?}, expected {}", s, other.map(|o| o.map(|a| readback(d, a).to_string())).map_err(|x| x.to_string()), want)),
+                                    }
+                                }
+                            }
+                        }
+                        match d.get_list_item_with_symbol(l, 987_654_321) {
+                            Ok(None) => {}
+                            other => return Err(format!("a key the new list does not hold looks up as {:?}, expected no item", other.map_err(|x| x.to_string()))),
+                        }
+                        Some((l, V::List(items.into_iter().map(|(_, v)| v).collect())))
+                    }
+                }
                 DOp::Slice => {
                     let is_num = |v: &V| matches!(v, V::Int(_));
                     let is_text = |v: &V| matches!(v, V::Text(_));
@@ -611,7 +677,7 @@ impl Check for C15Check {
          phase random: histories of 50..400 operations on SimpleGarnishData and on BasicGarnishData with default and with tape-chosen per-table settings. \
          Oracle: an abstract model of independent growable tables; after EVERY operation every address ever returned reads back (type and content through the getters) as in the model, the instruction and jump tables match index by index, registers match in order (frame markers accounted for), the current value and symbol names match; pops return what the model says. \
          On SimpleGarnishData additionally: adding a bit-identical constant again returns the same address, a different constant a different address. \
-         Phase constant-pairs: every ordered pair (A, B) of a pool of constants of every interned kind (numbers incl. the same value as integer and float, the same small number as number / char / byte / symbol / expression / external, types, texts and byte lists of lengths around 8..256 that differ only in their last, first or middle item) added as A, B, A, B to a fresh object of either implementation: all four read back as added; on SimpleGarnishData equal constants share one address, different ones never do. Phase objects: every value of the constant pool, of every value kind and of a set of lists / pairs holding equal-looking items (1 and 1.0, 0.0 and -0.0, equal texts) handed to BasicGarnishData::push_object_to_data_block as one BasicObject, between two other values: it reads back as that value and the neighbours are untouched; texts and byte lists also through add_string / add_byte_slice. Phase derived-values: every history of up to 5 (thorough 6) operations out of 10 that store a symbol, a number or a text or make a new value from stored ones (merge_to_symbol_list with the newest / oldest symbol list and symbol, add_concatenation, add_pair, add_range + add_slice): after every operation every address handed out earlier reads back unchanged, on both implementations. Phase large-stores: 100 .. 5000 (thorough 70000) distinct constants of one kind (integers, floats, texts, byte lists, symbols) or a mix in one object, then every one of them added again forwards and backwards: on SimpleGarnishData each comes back at its first address and no two share one, on both implementations they read back as added. Non-trivial = a history in which at least two different tables grew while others held data; distinct = distinct (history, configuration)."
+         Phase constant-pairs: every ordered pair (A, B) of a pool of constants of every interned kind (numbers incl. the same value as integer and float, the same small number as number / char / byte / symbol / expression / external, types, texts and byte lists of lengths around 8..256 that differ only in their last, first or middle item) added as A, B, A, B to a fresh object of either implementation: all four read back as added; on SimpleGarnishData equal constants share one address, different ones never do. Phase objects: every value of the constant pool, of every value kind and of a set of lists / pairs holding equal-looking items (1 and 1.0, 0.0 and -0.0, equal texts) handed to BasicGarnishData::push_object_to_data_block as one BasicObject, between two other values: it reads back as that value and the neighbours are untouched; texts and byte lists also through add_string / add_byte_slice. Phase derived-values: every history of up to 5 (thorough 6) operations out of 13 that store a symbol, a number or a text or make a new value from stored ones (merge_to_symbol_list with the newest / oldest symbol list and symbol, add_concatenation, add_pair, add_range + add_slice, add_symbol_from and add_char_list_from of a stored number, eight registers pushed and popped followed by a list made with start_list / add_to_list / end_list and looked up by a key it holds and one it does not): after every operation every address handed out earlier reads back unchanged, on both implementations. Phase large-stores: 100 .. 5000 (thorough 70000) distinct constants of one kind (integers, floats, texts, byte lists, symbols) or a mix in one object, then every one of them added again forwards and backwards: on SimpleGarnishData each comes back at its first address and no two share one, on both implementations they read back as added. Non-trivial = a history in which at least two different tables grew while others held data; distinct = distinct (history, configuration)."
             .to_string()
     }
     fn assumptions(&self) -> Vec<String> {
